@@ -199,8 +199,10 @@ func (r *Raft) takeSnapshot() (string, error) {
 		return "", fmt.Errorf("failed to close snapshot: %v", err)
 	}
 
-	// Update the last stable snapshot info.
-	r.setLastSnapshot(snapReq.index, snapReq.term)
+	// Update the last stable snapshot info. The main thread may have installed
+	// or restored a newer snapshot while this one was being written: the last
+	// snapshot never moves backwards.
+	r.advanceLastSnapshot(snapReq.index, snapReq.term)
 
 	// Compact the logs.
 	if err := r.compactLogs(snapReq.index); err != nil {
